@@ -324,6 +324,45 @@ def r4(ctx):
             yield VIOL("C01-R4", "canonical_request/header-values-all", "not every value of a signed header is appended (the append does not post-dominate the iteration's Some edge)", where=b.span_of_block(vb))
         else:
             yield PASS("C01-R4", "canonical_request/header-values-all", "value append post-dominates the Some edge of the value iterator: every value is signed", [site(b, vb, "extend(value)")])
+    # separators (':' after the name, ',' between values, '\n' after a header / a section) are placed by POSITION: the
+    # conditions under which such a byte is appended look at the iteration (index / first-flag / how many values), never at
+    # what has been written so far or at a value's content (`if !result.ends_with(b":")`: a value ending in ':' eats the comma)
+    SEP = {ord(":"): "':'", ord(","): "','", ord("\n"): "newline", ord(";"): "';'"}
+    POS_OK = r"Iterator::(enumerate|next|peekable|peek|zip|skip|map|filter_map|flat_map|filter)$|ops::Try::branch$|FromResidual::from_residual$|IntoIterator::into_iter$|slice::<impl \[T\]>::(iter|split_first|split_last|first)$|Vec::<T, A>::iter$|HashMap::<K, V, S, A>::get$|Deref::deref$|Option::<T>::is_(some|none)$|CanonicalRequest::headers$"
+    badsep = []
+    nsep = 0
+    for bi_, t_ in b.calls(r"Vec::<T, A>::push$|String::push$"):
+        k_ = const_value(op_const(t_["args"][1]) or {}) if len(t_["args"]) > 1 else None
+        if k_ not in SEP:
+            continue
+        nsep += 1
+        for a_, s_, c_, tr_ in guard_conditions(b, bi_):
+            if c_["kind"] == "discr":
+                continue
+            ops_ = list(c_["term"]["args"]) if c_["kind"] == "call" else [c_["l"], c_["r"]] if c_["kind"] == "binop" else [{"copy": {"local": c_["local"], "proj": []}}] if c_["kind"] == "local" else [{"copy": c_["place"]}] if c_["kind"] == "place" else []
+            content = []
+            if c_["kind"] == "call" and not re.search(POS_OK + r"|Vec::<T, A>::(len|is_empty)$|slice::<impl \[T\]>::(len|is_empty)$", c_["callee"]):
+                content.append(c_["callee"].split("::")[-1])
+            for o_ in ops_:
+                if op_const(o_) is not None:
+                    continue
+                sl_ = b.slice_op(o_)
+                for cb_, ct_ in sl_.calls:
+                    cal = ct_["callee"]
+                    if re.search(POS_OK, cal):
+                        continue
+                    if re.search(r"Vec::<T, A>::(len|is_empty)$|slice::<impl \[T\]>::(len|is_empty)$", cal) and re.search(r"Vec<std::vec::Vec<u8>>|\[std::vec::Vec<u8>\]", " ".join(ct_.get("arg_tys", []))):
+                        continue  # how many values the header has
+                    content.append(cal.split("::")[-1])
+                if acc in sl_.locals:
+                    content = ["the bytes written so far"]
+                    break
+            if content:
+                badsep.append((bi_, SEP[k_], sorted(set(content))))
+    for bi_, nm_, what_ in badsep:
+        yield VIOL("C01-R4", "canonical_request/separator-by-content:" + nm_.strip("'"), "whether %s is appended depends on %s, not on the position in the iteration: some header value / earlier output changes the structure of the canonical request" % (nm_, ", ".join(what_)), where=b.span_of_block(bi_))
+    if not badsep and nsep:
+        yield PASS("C01-R4", "canonical_request/separators-by-position", "%d separator pushes, each conditional on iteration structure only" % nsep, [])
     # canonical_query_string covers query_parameters
     q = ctx.fn("canonical::CanonicalRequest::canonical_query_string")
     qs = q.slice([0])
